@@ -21,15 +21,15 @@ PROP = dict(
                    'lexical layer shared with C12 (reader_inv, slices_in_table_partial, opcode_table_sane) applies to every decoder used. '
                    'The property itself - parseAML(encode p) succeeds and nsOf = namespaceOf p - is NOT a theorem: it is decided for every '
                    'generated program by the executable specification namespaceOf (ACPI scoping rules written directly) and the '
-                   'differential oracle on the real parser, and it is false today for six program shapes (known findings).',
+                   'differential oracle on the real parser, and it is false today for five program shapes (known findings).',
         level_note='Partial: no whole-parser theorem (parse_encode, flat_decls_partial, call_arity_partial and the name/string round trips '
                    'are not proved; pkglen_roundtrip, const_roundtrip and the shared lexical safety theorems are). Known findings (reported as '
                    'KNOWN-FINDING, each with a witness in the deterministic boundary list): multi-segment paths through a Device are '
                    'rejected (D6); ^-prefixed declarations inside a Device land one level too low; a call whose argument is an '
                    'expression gets the wrong arguments; an If without object-creating body fails/swallows the next statement; inside '
-                   'a While a nested If/While drops the statements after it; inside a While a call operand of an expression is '
-                   'unresolvable. About 70% of the generated cases avoid these shapes and must pass the whole oracle. '
+                   'a While a nested If/While drops the statements after it. About 70% of the generated cases avoid these shapes and must pass the whole oracle. '
                    'Trusted: Lean kernel (+ propext, Classical.choice, Quot.sound), namespaceOf as the reading of the ACPI scoping '
-                   'rules, the generator/encoder twins (cross-checked), the harness; two defects found here were repaired in /repo '
-                   '(8-bit MultiNamePath length; prefix+NullName names such as Scope(\\) rejected).',
+                   'rules, the generator/encoder twins (cross-checked), the harness; three defects found here were repaired in /repo '
+                   '(8-bit MultiNamePath length; prefix+NullName names such as Scope(\\) rejected; call operands of expressions '
+                   'inside While unresolvable).',
 )
